@@ -51,19 +51,27 @@ Fixpoint forall_chars (p : ascii -> bool) (s : string) : bool :=
   | String c r => p c && forall_chars p r
   end.
 
-(** none of  ( ) [ ] , : ;  *)
-Definition name_char (c : ascii) : bool := negb (is_meta c) && negb (Ascii.eqb c ";").
+(** Names and comments are text: valid UTF-8 without NUL.  (The reader decodes runes, turns
+    undecodable bytes into U+FFFD and takes rune 0 for the end of its input: DESIGN 3.3
+    reads "names" and "comments" in C01 as such text.) *)
+Definition text_ok (s : string) : bool :=
+  let '(o, st) := ufold uclean s in String.eqb o s && Nat.eqb (uneed st) 0.
+
+(** none of  ( ) [ ] , : ;  (and not NUL) *)
+Definition name_char (c : ascii) : bool := negb (is_meta c) && negb (Ascii.eqb c ";") && negb (is_nul c).
 Definition no_blank_around (n : string) : bool := String.eqb (trim_space n) n.
 
 Definition tip_name_ok (n : string) : bool :=
-  negb (String.eqb n "") && forall_chars name_char n && no_blank_around n.
+  negb (String.eqb n "") && forall_chars name_char n && no_blank_around n && text_ok n.
 
-(** characters of a printed number: no metacharacter, no ';', no blank, no '/' *)
+(** characters of a printed number: ASCII, no metacharacter, no ';', no blank, no '/', no NUL *)
 Definition num_char (c : ascii) : bool :=
-  is_ident false c && negb (is_ws c) && negb (Ascii.eqb c "/").
+  is_ident false c && negb (is_ws c) && negb (Ascii.eqb c "/") && negb (is_nul c) &&
+  Nat.ltb (nat_of_ascii c) 128.
 Definition no_slash (s : string) : bool := forall_chars (fun c => negb (Ascii.eqb c "/")) s.
 
-Definition comment_ok (c : string) : bool := forall_chars (fun x => negb (Ascii.eqb x "]")) c.
+Definition comment_char (x : ascii) : bool := negb (Ascii.eqb x "]") && negb (is_nul x).
+Definition comment_ok (c : string) : bool := forall_chars comment_char c && text_ok c.
 
 Section Quantifier.
   (** "is a float" as the reader understands it (strconv.ParseFloat succeeds), and which
@@ -77,7 +85,7 @@ Section Quantifier.
 
   Definition inner_name_ok (n : string) : bool :=
     String.eqb n "" ||
-    (forall_chars name_char n && no_blank_around n && negb (numeric_looking n)).
+    (forall_chars name_char n && no_blank_around n && text_ok n && negb (numeric_looking n)).
 
   Definition num_ok (x : Q) : bool := negb (present x) || numok x.
 
